@@ -25,7 +25,7 @@ var valuePools = map[int][]string{
 	tCoinZCN:  {"0", "0.0000000001", "0.01", "0.1", "1", "1.5", "100", "20000", "922337203", "922337204", "1e9", "-1", "0.00000000001", "abc", ""},
 	tDuration: {"0s", "1s", "1001ms", "2m", "90m", "3h", "48h", "720h", "-1s", "1", "abc", "", "1d", "9999999h"},
 	tBool:     {"true", "false", "1", "0", "T", "yes", ""},
-	tKey:      {"@0", "@1", "@2", "@3", "@4", "@5", "@9", "abcd", "", "xyz", "abc"},
+	tKey:      {"@0", "@self", "@1", "@2", "@3", "@4", "@5", "@9", "abcd", "", "xyz", "abc"},
 	tAnyStr:   {"@0", "@1", "@2", "@9", "", "xyz"},
 	tCost:     {"0", "1", "100", "-1", "1.5", "abc", "2147483647", "99999999999999999999"},
 	tCostNN:   {"0", "1", "100", "-1", "1.5", "abc", "2147483647", "99999999999999999999"},
@@ -219,9 +219,14 @@ func resolveCaller(w *ledger.World, r *ledger.Runner, tg *target, a int) (string
 	}
 }
 
-func resolveValues(w *ledger.World, kv []string) []string {
+func resolveValues(w *ledger.World, kv []string, from string) []string {
 	out := append([]string(nil), kv...)
 	for i := 1; i < len(out); i += 2 {
+		if out[i] == "@self" {
+			// the sender names itself (e.g. as the new owner)
+			out[i] = from
+			continue
+		}
 		if strings.HasPrefix(out[i], "@") {
 			n := 0
 			fmt.Sscanf(out[i][1:], "%d", &n)
@@ -237,7 +242,7 @@ func opSet(r *ledger.Runner, st sim.Step) {
 	r.EnsureBlock()
 	tg := targets[int(st.Int(0, 0))%len(targets)]
 	from, cls := resolveCaller(w, r, tg, st.A)
-	kv := resolveValues(w, st.S)
+	kv := resolveValues(w, st.S, from)
 	if r.Plan.CfgInt("nan_coin", 0) == 0 {
 		// NaN / Inf amounts make decimal.NewFromFloat panic inside the contract goroutine
 		// (process crash, see NOTES.md); only generated when the plan asks for it
